@@ -47,14 +47,25 @@ func infra(format string, args ...interface{}) {
 	panic(infraError{fmt.Sprintf(format, args...)})
 }
 
-var normalised bool
+var normRound int
+
+// normInline enables the tail-call inlining normalisation (normalise_inline.go). It changes which functions exist, so
+// it is used only as a second attempt: a check that does not come out clean on the program as written is repeated on
+// the inlined program, and the second result is taken only if it is clean (see runCheck).
+var normInline string // "", a package path, or "all"
+
+// normInlineStmts additionally inlines calls that are whole statements (not only tail calls).
+var normInlineStmts bool
 
 // tryLoadNormalised loads the tree with the normalising overlay; if the rewritten source does not type-check (a case the
 // rewriting did not foresee) the original program is analysed instead.
 func tryLoadNormalised(repoDir string, overlay map[string][]byte, goarch string) (w *World) {
 	defer func() {
 		if e := recover(); e != nil {
-			if _, isInfra := e.(infraError); isInfra {
+			if ie, isInfra := e.(infraError); isInfra {
+				if os.Getenv("GBV_DUMP_NORM") != "" {
+					fmt.Fprintln(os.Stderr, "normalised source does not load:", ie.msg)
+				}
 				w = nil
 				return
 			}
@@ -96,15 +107,33 @@ func loadWorld(repoDir string, overlay map[string][]byte, goarch string) *World 
 	if nerr > 0 {
 		infra("type-check/load errors (%d), first: %s", nerr, first)
 	}
-	if !normalised {
-		// source normalisation (normalise.go): split local struct variables used field by field; reload once if any
+	if normRound < 5 {
+		// source normalisation (normalise*.go): glue tail-called halves of split functions together again, then split
+		// local struct variables used field by field; reload after each round that changed something
 		var own []*packages.Package
 		for _, p := range pkgs {
 			if p.PkgPath == rootPath || p.PkgPath == replPath {
 				own = append(own, p)
 			}
 		}
-		if extra := sroaOverlay(own, overlay); extra != nil {
+		saved := map[string][]lineOrigin{}
+		for k, v := range lineOrigins {
+			saved[k] = v
+		}
+		var extra map[string][]byte
+		if normInline != "" {
+			var sel []*packages.Package
+			for _, p := range own {
+				if normInline == "all" || p.PkgPath == normInline {
+					sel = append(sel, p)
+				}
+			}
+			extra = tailInlineOverlay(sel, overlay)
+		}
+		if extra == nil {
+			extra = sroaOverlay(own, overlay)
+		}
+		if extra != nil {
 			merged := map[string][]byte{}
 			for k, v := range overlay {
 				merged[k] = v
@@ -112,12 +141,19 @@ func loadWorld(repoDir string, overlay map[string][]byte, goarch string) *World 
 			for k, v := range extra {
 				merged[k] = v
 			}
-			normalised = true
-			defer func() { normalised = false }()
+			if d := os.Getenv("GBV_DUMP_NORM"); d != "" {
+				os.MkdirAll(d, 0o755)
+				for k, v := range extra {
+					os.WriteFile(filepath.Join(d, fmt.Sprintf("r%d_%s", normRound, filepath.Base(k))), v, 0o644)
+				}
+			}
+			normRound++
 			w2 := tryLoadNormalised(repoDir, merged, goarch)
+			normRound--
 			if w2 != nil {
 				return w2
 			}
+			lineOrigins = saved // the rewritten source did not load: analyse what we have
 		}
 	}
 	w := &World{RepoDir: repoDir, Pkgs: pkgs, GOARCH: goarch}
@@ -168,6 +204,7 @@ func (w *World) pos(p token.Pos) string {
 		return "-"
 	}
 	ps := w.Fset.Position(p)
+	ps.Filename, ps.Line = originOf(ps.Filename, ps.Line)
 	rel, err := filepath.Rel(w.RepoDir, ps.Filename)
 	if err != nil || strings.HasPrefix(rel, "..") {
 		rel = ps.Filename
